@@ -555,6 +555,12 @@ const ENV_VALUES: [&str; 28] = [
     "1", "0", "true", "false", "full", "debug", "release", "trace", "/tmp/x", "o2o", "0.5.1", "x86_64-unknown-linux-gnu", "wasm32-unknown-unknown", "windows", "linux", "macos", "UTC", "en_US.UTF-8", "tr_TR.UTF-8", "C", "", "always", "never", "2018", "2021", "nightly", "stable", "yes",
 ];
 
+/// numbers an environment typically carries (terminal sizes, job counts, levels, sizes): what
+/// a threshold in the expander would be compared against
+const ENV_NUMBERS: [&str; 30] = [
+    "1", "2", "3", "4", "8", "16", "24", "25", "32", "40", "43", "50", "64", "72", "79", "80", "81", "90", "100", "120", "128", "132", "160", "200", "255", "256", "512", "1024", "4096", "65535",
+];
+
 /// what rustc is typically started with; a proc macro can see its host's command line
 const ARGV_POOL: [&str; 26] = [
     "--edition=2015", "--edition=2018", "--edition=2021", "--edition=2024", "--crate-name", "consumer", "--crate-type", "lib", "proc-macro", "bin", "--test", "--cfg", "feature=\"syn2\"", "feature=\"std\"", "-C", "opt-level=3", "debuginfo=2", "--target", "wasm32-unknown-unknown", "--cap-lints", "allow", "--error-format=json", "--color=never", "-Zunpretty=expanded",
@@ -567,7 +573,7 @@ pub fn plan_env(rng: &mut Rng, feedback: &[String], dict: &[String], dict_values
     for k in dict {
         if rng.chance(1, 2) {
             // (what a value is compared against is written in the sources too)
-            let v = if !dict_values.is_empty() && rng.chance(1, 3) { rng.pick(dict_values).clone() } else if rng.chance(1, 4) { "0".to_string() } else { rng.pick(&ENV_VALUES).to_string() };
+            let v = if !dict_values.is_empty() && rng.chance(1, 3) { rng.pick(dict_values).clone() } else if rng.chance(1, 4) { "0".to_string() } else if rng.chance(1, 4) { rng.pick(&ENV_NUMBERS).to_string() } else { rng.pick(&ENV_VALUES).to_string() };
             env.push((k.clone(), v));
         }
     }
@@ -583,7 +589,7 @@ pub fn plan_env(rng: &mut Rng, feedback: &[String], dict: &[String], dict_values
     // variables the expander was *observed* to read in earlier worlds are always varied
     for k in feedback {
         if !env.iter().any(|e| &e.0 == k) && rng.chance(3, 4) {
-            let v = if !dict_values.is_empty() && rng.chance(1, 3) { rng.pick(dict_values).clone() } else if rng.chance(1, 2) { format!("{}", rng.next_u64() % 1000) } else { rng.pick(&ENV_VALUES).to_string() };
+            let v = if !dict_values.is_empty() && rng.chance(1, 3) { rng.pick(dict_values).clone() } else if rng.chance(1, 2) { if rng.chance(1, 2) { rng.pick(&ENV_NUMBERS).to_string() } else { format!("{}", rng.next_u64() % 1000) } } else { rng.pick(&ENV_VALUES).to_string() };
             env.push((k.clone(), v));
         }
     }
@@ -888,7 +894,7 @@ pub fn plan_world(ws: u64, corpus: &Corpus, o: &PlanOpts) -> World {
             cfg.env = plan_env(&mut rng, &o.feedback, &corpus.dict_env, &corpus.dict_values);
             if sweep && !corpus.dict_values.is_empty() {
                 for name in &o.feedback {
-                    let v = rng.pick(&corpus.dict_values).clone();
+                    let v = if rng.chance(1, 3) { rng.pick(&ENV_NUMBERS).to_string() } else { rng.pick(&corpus.dict_values).clone() };
                     cfg.env.retain(|e| &e.0 != name);
                     cfg.env.push((name.clone(), v));
                 }
